@@ -911,3 +911,6 @@ package mail
 //@ at mail.Client.auth smtp.PlainAuth#2 before assert[C07:cleartext-only-when-asked] arg4 ==> authType == "PLAIN-NOENC"
 //@ at mail.Client.auth smtp.LoginAuth#1 before assert[C07:cleartext-only-when-asked] arg3 ==> authType == "LOGIN-NOENC"
 //@ at mail.Client.auth smtp.LoginAuth#2 before assert[C07:cleartext-only-when-asked] arg3 ==> authType == "LOGIN-NOENC"
+
+// C06 (continued): the IgnoreInvalid setters parse what the caller passed (not a re-encoded form of it)
+//@ at mail.Msg.SetAddrHeaderIgnoreInvalid netmail.ParseAddress#1 before assert[C06:parsed-as-given] arg0 == addrVal
